@@ -396,7 +396,10 @@ def same_start(ast: list, rng: random.Random) -> list | None:
     if not forks:
         return None
     f = rng.choice(forks)
-    for b in f[1]:
+    # all branches, or (for forks with >= 3 branches) only some of them, so that the repeated
+    # type is interleaved with other follower types
+    chosen = f[1] if len(f[1]) < 3 or rng.random() < 0.5 else rng.sample(f[1], 2)
+    for b in chosen:
         b[0] = ("ev", "SAME0")
     return ast
 
